@@ -31,6 +31,10 @@ var dangerousSchemes = map[string]bool{"javascript": true, "data": true, "vbscri
 // and trailing C0 controls / spaces are stripped, TAB/CR/LF are removed anywhere, the scheme is
 // case-insensitive.
 func urlClass(v string) (class string, scheme string) {
+	if strings.Contains(v, "ZgotmplZ") {
+		// html/template replaced an unsafe URL by its inert placeholder: the link is gone, nothing was injected
+		return "filtered", ""
+	}
 	v = strings.TrimFunc(v, func(r rune) bool { return r <= 0x20 })
 	v = strings.Map(func(r rune) rune {
 		if r == '\t' || r == '\n' || r == '\r' {
@@ -101,7 +105,7 @@ func analyse(body []byte, needles []string, payload string) *htmlView {
 	v := &htmlView{Occ: map[string]bool{}, Bad: map[string]bool{}}
 	z := html.NewTokenizer(bytes.NewReader(body))
 	rawParent := ""
-	inTitle, inH1 := false, false
+	inTitle, inH1, titleDone := false, false, false
 	lastText := false
 	idx := -1
 	add := func(s string) {
@@ -126,7 +130,7 @@ func analyse(body []byte, needles []string, payload string) *htmlView {
 				add("T")
 				lastText = true
 			}
-			if inTitle {
+			if inTitle && !titleDone {
 				v.Title += t.Data
 			}
 			if inH1 {
@@ -225,6 +229,9 @@ func analyse(body []byte, needles []string, payload string) *htmlView {
 			}
 			switch t.Data {
 			case "title":
+				if inTitle {
+					titleDone = true
+				}
 				inTitle = false
 			case "h1":
 				inH1 = false
@@ -273,7 +280,7 @@ func itoa(i int) string {
 }
 
 // treeShape parses the document the way a browser's tree builder does and renders the element tree
-// (names, attribute names, URL classes); text nodes are "#t" (adjacent ones merged), comments "#c".
+// (names, attribute names); text nodes are "#t" (adjacent ones merged), comments "#c".
 func treeShape(body []byte) string {
 	doc, err := html.Parse(bytes.NewReader(body))
 	if err != nil {
@@ -286,12 +293,7 @@ func treeShape(body []byte) string {
 		case html.ElementNode:
 			names := make([]string, 0, len(n.Attr))
 			for _, a := range n.Attr {
-				k := a.Key
-				if urlAttrs[k] {
-					c, _ := urlClass(a.Val)
-					k += "=" + c
-				}
-				names = append(names, k)
+				names = append(names, a.Key) // URL classes are compared on the token skeleton
 			}
 			sort.Strings(names)
 			sb.WriteString("<" + n.Data + "[" + strings.Join(names, ",") + "]")
@@ -336,6 +338,9 @@ func firstDiff(a, b []string) string {
 		n = len(b)
 	}
 	for i := 0; i < n; i++ {
+		if a[i] != b[i] && strings.Contains(a[i], "=filtered") && dropURLClasses(a[i]) == dropURLClasses(b[i]) {
+			continue
+		}
 		if a[i] != b[i] {
 			return "token " + itoa(i) + ": hostile " + clip(a[i], 80) + " vs benign " + clip(b[i], 80)
 		}
@@ -400,4 +405,19 @@ func jsonVerdict(body []byte) (ok bool, why string) {
 		return false, "json.Valid rejects the body"
 	}
 	return true, ""
+}
+
+// dropURLClasses removes the "=scheme://host" part of URL-valued attributes from a skeleton token.
+func dropURLClasses(tok string) string {
+	i := strings.IndexByte(tok, '[')
+	if i < 0 || !strings.HasSuffix(tok, "]") {
+		return tok
+	}
+	names := strings.Split(tok[i+1:len(tok)-1], ",")
+	for j, n := range names {
+		if k := strings.IndexByte(n, '='); k >= 0 {
+			names[j] = n[:k]
+		}
+	}
+	return tok[:i+1] + strings.Join(names, ",") + "]"
 }
